@@ -57,6 +57,18 @@ def symptoms_of(r: dict) -> list[tuple[str, str, dict]]:
     return out
 
 
+def refine(c: dict, r: dict, symptom: str) -> str:
+    """Symptoms that need the source definition next to the result."""
+    if symptom == "rejects-input:other" and r.get("puml"):
+        # signature of the second recorded mechanism on incomplete evidence: an event that the
+        # source has inside a loop stands outside every loop in the learned diagram (the tail
+        # of the last observed iteration is hoisted behind the loop)
+        learned, _p, _i = puml.parse(r["puml"])
+        if learned is not None and puml.names_in_loops(c["src"]) - puml.names_in_loops(learned):
+            return "rejects-input:loop-tail-hoisted"
+    return symptom
+
+
 def run(chk: core.Check, cases: list[dict], aspects: set[str],
         on_result: Callable[[dict, dict], None] | None = None,
         hashseeds: list[int] | None = None, skip_no_output: bool = False,
@@ -109,6 +121,7 @@ def run(chk: core.Check, cases: list[dict], aspects: set[str],
                 continue
             if symptom == "branch-count-emitted" and "same-end" in c["tags"]:
                 continue    # branch counts are what this stratum provokes on purpose
+            symptom = refine(c, r, symptom)
             flagged = True
             witness = {"case": {k: v for k, v in c.items()}, "symptom_detail": detail,
                        "hashseed": r.get("_hashseed"), "learned": r.get("puml")}
@@ -148,9 +161,13 @@ def replay_case(prop: str, path: str, aspects: set[str]) -> int:
             print("harness:", r)
             continue
         print(r.get("puml") or r.get("exc"))
+        kf = core.KnownFindings()
         for aspect, symptom, detail in symptoms_of(r):
-            print(aspect, symptom, json.dumps(detail)[:400])
-            if aspect in aspects:
+            symptom = refine(c, r, symptom)
+            known = kf.match(prop, c.get("tags", []), symptom) if aspect in aspects else None
+            print(aspect, symptom, json.dumps(detail)[:400],
+                  f"[known finding {known['id']}]" if known else "")
+            if aspect in aspects and not known:
                 bad = True
     if bad:
         print(f"VIOLATION property={prop} replay={path}")
